@@ -332,6 +332,87 @@ theorem chainAux_fresh (fs : Fs) (remote : List Char) (ss : List Strategy) : ∀
         apply ih st1 st' (applyStrategy_inv fs remote st st1 s hinv h1) _ h
         simpa [List.getLast?_cons_cons] using hl
 
+
+/-! ### the chain does not refuse without reason -/
+
+theorem applyStrategy_ok (fs : Fs) (remote : List Char) (hp : localParts remote ≠ [])
+    (st : Path × Name) (s : Strategy) : ∃ st', applyStrategy fs remote st s = .ok st' := by
+  cases s with
+  | default =>
+    simp only [applyStrategy]
+    cases h : (localParts remote).getLast? with
+    | none => exact absurd (List.getLast?_eq_none_iff.mp h) hp
+    | some n => exact ⟨_, rfl⟩
+  | keepDir =>
+    simp only [applyStrategy]
+    split
+    · rename_i h; exact absurd (List.reverse_eq_nil_iff.mp h) hp
+    · exact ⟨_, rfl⟩
+    · split <;> exact ⟨_, rfl⟩
+  | number =>
+    simp only [applyStrategy]
+    split <;> exact ⟨_, rfl⟩
+
+theorem applyStrategy_regular (fs : Fs) (remote : List Char) (st st' : Path × Name) (s : Strategy)
+    (hinv : Inv st) (h : applyStrategy fs remote st s = .ok st')
+    (hr : s = .default ∨ Regular st.2) : Regular st'.2 := by
+  have hinv' := applyStrategy_inv fs remote st st' s hinv h
+  rcases hinv'.2 with h0 | h0
+  · exfalso
+    cases s with
+    | default =>
+      simp only [applyStrategy] at h
+      split at h
+      · cases h
+      · rename_i n hn
+        cases h
+        exact (localParts_regular remote n (List.mem_of_getLast? hn)).1 h0
+    | keepDir =>
+      have hreg : Regular st.2 := by rcases hr with hr | hr; · cases hr
+                                     · exact hr
+      simp only [applyStrategy] at h
+      split at h
+      · cases h
+      · cases h; exact hreg.1 h0
+      · split at h <;> (cases h; exact hreg.1 h0)
+    | number =>
+      have hreg : Regular st.2 := by rcases hr with hr | hr; · cases hr
+                                     · exact hr
+      simp only [applyStrategy] at h
+      split at h
+      · cases h
+        have hsp : ' ' ∈ numbered (splitext st.2).1 (splitext st.2).2
+            (nextIndex ((fs.listdir st.1).filterMap (matchIndex (splitext st.2).1 (splitext st.2).2))) := by
+          simp [numbered]
+        simp only at h0
+        rw [h0] at hsp
+        simp at hsp
+      · cases h; exact hreg.1 h0
+  · exact h0
+
+theorem chainAux_ok (fs : Fs) (remote : List Char) (hp : localParts remote ≠ []) (ss : List Strategy) :
+    ∀ (st : Path × Name), Inv st → (Regular st.2 ∨ Strategy.default ∈ ss) →
+    ∃ st', chainAux fs remote ss st = .ok st' ∧ Regular st'.2 := by
+  induction ss with
+  | nil =>
+    intro st _ hr
+    rcases hr with hr | hr
+    · exact ⟨st, rfl, hr⟩
+    · simp at hr
+  | cons s ss ih =>
+    intro st hinv hr
+    obtain ⟨st1, h1⟩ := applyStrategy_ok fs remote hp st s
+    have hinv1 := applyStrategy_inv fs remote st st1 s hinv h1
+    simp only [chainAux, h1]
+    apply ih st1 hinv1
+    by_cases hs : s = .default
+    · exact Or.inl (applyStrategy_regular fs remote st st1 s hinv h1 (Or.inl hs))
+    · rcases hr with hr | hr
+      · exact Or.inl (applyStrategy_regular fs remote st st1 s hinv h1 (Or.inr hr))
+      · rcases List.mem_cons.mp hr with hr | hr
+        · exact absurd hr.symm hs
+        · exact Or.inr hr
+
 /-! ### claiming -/
 
 theorem mkdirs_mono (cs : List Name) : ∀ (fs fs' : Fs) (base : Path), mkdirs fs base cs = some fs' →
